@@ -210,9 +210,13 @@ let make_oracles cfg : oracles =
     (* the certificate stage of is_authenticated(): no TLS in this channel - tls_verify() returns 0 at once (the TLS engine
        overrides o_tls through orc and takes o_tlsverify from the case: cfg ccert) *)
     o_tls = false;
-    o_tlsverify = (match cfg "ccert" "none" with
-        | "listed" -> TV_yes (bytes_of_str (cfg "ccname" "client@example.net"))
-        | _ -> TV_no) }
+    (* what tls_verify() does behind its guard in the scratch configuration of harness/tlssession/runner.py (TLS 1.3 client):
+       no control/tlsclients or no control/clientca.pem: 0; the client did not offer post-handshake authentication:
+       SSL_verify_client_post_handshake() fails, tls_out() writes 454 and -EPROTO comes back; otherwise the request goes out
+       and tls_check_cert() looks for the certificate before the client's answer can have arrived: 0 *)
+    o_tlsverify = (if cfg "tlsclients" "0" <> "1" || cfg "clientca" "0" <> "1" then TV_no
+                   else if cfg "pha" "0" <> "1" then TV_err (true, HEPROTO)
+                   else TV_no) }
 
 let show_events (evs : event list) : string =
   let closed = ref false in
